@@ -27,6 +27,7 @@ import (
 
 	"github.com/a-h/templ/cmd/templ/generatecmd"
 	"github.com/a-h/templ/cmd/templ/generatecmd/proxy"
+	"github.com/a-h/templ/cmd/templ/generatecmd/sse"
 )
 
 // browser-side history opcodes: 0..4 are the specification's (spec/Browser.v bev), the rest is for the reader
@@ -448,4 +449,113 @@ func lastLinesOf(s string, n int) string {
 		ls = ls[len(ls)-n:]
 	}
 	return strings.Join(ls, "\n")
+}
+
+// ---- contract of the transport model (coq/model/SseTransport.v) against the real net/http ----
+// The real sse.Handler is served from an http.Server with and without a WriteTimeout; a browser connects and a
+// numbered event is broadcast every stepMs. The parent compares what was read with what the model says: without a
+// deadline everything, with a deadline d everything broadcast before the connection is d old and nothing after.
+
+type contractEvent struct {
+	K     int  `json:"k"`
+	AgeMs int  `json:"age_ms"` // age of the browser's connection when the broadcast was issued
+	Read  bool `json:"read"`
+}
+
+type contractRun struct {
+	DeadlineMs int             `json:"deadline_ms"` // 0 = none
+	Events     []contractEvent `json:"events"`
+	CutAgeMs   int             `json:"cut_age_ms"` // -1 = the stream was still open at the end
+	Err        string          `json:"err,omitempty"`
+}
+
+func runContractOne(deadlineMs, stepMs, n int) contractRun {
+	out := contractRun{DeadlineMs: deadlineMs, CutAgeMs: -1}
+	h := sse.New()
+	srv := &http.Server{Handler: h, WriteTimeout: time.Duration(deadlineMs) * time.Millisecond}
+	l, err := net.Listen("tcp", "127.0.0.1:0")
+	if err != nil {
+		out.Err = err.Error()
+		return out
+	}
+	go srv.Serve(l)
+	defer srv.Close()
+	ctx, cancel := context.WithCancel(context.Background())
+	defer cancel()
+	req, _ := http.NewRequestWithContext(ctx, http.MethodGet, "http://"+l.Addr().String()+"/", nil)
+	tr := &http.Transport{DisableKeepAlives: true}
+	defer tr.CloseIdleConnections()
+	resp, err := (&http.Client{Transport: tr}).Do(req)
+	if err != nil {
+		out.Err = err.Error()
+		return out
+	}
+	defer resp.Body.Close()
+	t0 := time.Now()
+	var mu sync.Mutex
+	read := map[int]bool{}
+	opened := make(chan struct{})
+	go func() {
+		rd := bufio.NewReader(resp.Body)
+		first := true
+		for {
+			line, err := rd.ReadString('\n')
+			if err != nil {
+				mu.Lock()
+				if ctx.Err() == nil {
+					out.CutAgeMs = int(time.Since(t0) / time.Millisecond)
+				}
+				mu.Unlock()
+				if first {
+					close(opened)
+				}
+				return
+			}
+			line = strings.TrimRight(line, "\r\n")
+			if !strings.HasPrefix(line, "data: ") {
+				continue
+			}
+			if first {
+				first = false
+				close(opened)
+			}
+			if k, err := strconv.Atoi(line[len("data: "):]); err == nil {
+				mu.Lock()
+				read[k] = true
+				mu.Unlock()
+			}
+		}
+	}()
+	select {
+	case <-opened:
+	case <-time.After(5 * time.Second):
+		out.Err = "no first ping"
+		return out
+	}
+	for k := 1; k <= n; k++ {
+		if d := time.Duration(k*stepMs)*time.Millisecond - time.Since(t0); d > 0 {
+			time.Sleep(d)
+		}
+		out.Events = append(out.Events, contractEvent{K: k, AgeMs: int(time.Since(t0) / time.Millisecond)})
+		h.Send("message", strconv.Itoa(k))
+	}
+	time.Sleep(400 * time.Millisecond)
+	mu.Lock()
+	for i := range out.Events {
+		out.Events[i].Read = read[out.Events[i].K]
+	}
+	mu.Unlock()
+	cancel()
+	return out
+}
+
+func runContract(in histIn) histOut {
+	var wg sync.WaitGroup
+	runs := make([]contractRun, 2)
+	for i, d := range []int{0, 1300} {
+		wg.Add(1)
+		go func(i, d int) { defer wg.Done(); runs[i] = runContractOne(d, 200, 14) }(i, d)
+	}
+	wg.Wait()
+	return histOut{ID: in.ID, Contract: runs}
 }
